@@ -3,6 +3,7 @@
   path = `-` (empty) or elements joined by `/`:  `k:<hex|->`  |  `i:<int>`.
 -/
 import SonicSpec.Model.SearchViews
+import SonicSpec.Model.SearchNode
 namespace SonicSpec.Driver.Search
 open SonicSpec SonicSpec.Json SonicSpec.Search
 
@@ -57,7 +58,7 @@ def handle : List String → Option String
       let same := recs.all (· == m)
       let sp := specRecord (locateR d path)
       let short := fun (r : String) => if r == sp then "=" else r
-      some (s!"model={m}\topt={if same then "same" else "diff"}\tspec={sp}"
+      some (s!"model={m}\topt={if same then "same" else "diff"}\tkwf={if keysWF d then 1 else 0}\tspec={sp}"
         ++ s!"\tnode={short (nodeRecord (locateNode false d path))}\tnodelast={short (nodeRecord (locateNode true d path))}")
   | ["pre", dh] => do
     let doc ← unhexArg dh
@@ -96,7 +97,17 @@ def handle : List String → Option String
       let nd := paths.map fun
         | none => "-"
         | some p => match locateNode false d p with | .found v => "ok:" ++ ocanon v | _ => "nf"
-      some s!"model={joinWith "|" m}\tspec={joinWith "|" sp}\tnode={joinWith "|" nd}"
+      -- the byte-level lazy loader: the whole sequence on ONE fresh lazy root
+      let ln := nodeRunPaths (.raw doc) lookups
+      let renderL := fun (a : Option Bytes) => match a with
+        | some raw => (match parseDoc raw with | some v => "ok:" ++ ocanon v | none => "ok:unparsable")
+        | none => "nf"
+      let rec zipL : List (Option Path) → List (Option Bytes) → List String
+        | [], _ => []
+        | none :: ps, as => "-" :: zipL ps as
+        | some _ :: ps, a :: as => renderL a :: zipL ps as
+        | some _ :: ps, [] => "?" :: zipL ps []
+      some s!"model={joinWith "|" m}\tspec={joinWith "|" sp}\tnode={joinWith "|" nd}\tlnode={joinWith "|" (zipL paths ln)}"
   | _ => none
 
 end SonicSpec.Driver.Search
